@@ -82,6 +82,7 @@ package document
 //@ requires source == nil || refsNonNil(source)
 //@ modifies nothing
 //@ ensures deepcopy(result, source)
+//@ ensures source != nil ==> fresh(result) && !isElem(result)
 //@ loop 1
 //@   invariant 0 <= #i && #i <= len(source.HeaderReferences) && unchangedHeap() && source != nil
 //@   invariant sectPr != nil && fresh(sectPr) && len(sectPr.HeaderReferences) == len(source.HeaderReferences) && (len(sectPr.HeaderReferences) == 0 || arr(sectPr.HeaderReferences) >= old(allocBound()))
